@@ -274,7 +274,11 @@ def parse_output(text):
     while i < len(lines):
         ln = lines[i]
         m = HEADER_RE.match(ln)
-        if m:
+        if m and m.group(1).endswith('.EmptyLayer'):
+            # the fake first layer of a -j N parent: not a layer of the run
+            cur = {'name': m.group(1), 'ran': [], 'lines': []}
+            info['empty_layer'] = cur
+        elif m:
             cur = {'name': m.group(1), 'ran': [], 'lines': []}
             info['layers'].append(cur)
         elif ln.startswith('Total: '):
